@@ -48,7 +48,11 @@ func (s *PythonIdentListener) EnterImport_stmt(ctx *parser.Import_stmtContext) {
 
 	for _, usageName := range dotNames[1:] {
 		nameContext := usageName.(*parser.Dotted_as_nameContext)
-		codeImport.UsageName = append(codeImport.UsageName, nameContext.GetText())
+		if nameContext.Name() != nil {
+			codeImport.UsageName = append(codeImport.UsageName, nameContext.Name().GetText())
+		} else {
+			codeImport.UsageName = append(codeImport.UsageName, nameContext.Dotted_name().GetText())
+		}
 	}
 
 	currentCodeFile.Imports = append(currentCodeFile.Imports, *codeImport)
